@@ -273,6 +273,20 @@ class Interp:
             if a.val is None or b.val is None:
                 if a.key() == b.key() and not a.has_top():
                     return bv_bool(op in ('Le', 'Ge'))
+                if not a.signed and not b.signed:
+                    # interval reasoning from known bits
+                    amin = sum(1 << i for i, x in enumerate(a.bitlist()) if x == 1)
+                    amax = sum(1 << i for i, x in enumerate(a.bitlist()) if x != 0)
+                    bmin = sum(1 << i for i, x in enumerate(b.bitlist()) if x == 1)
+                    bmax = sum(1 << i for i, x in enumerate(b.bitlist()) if x != 0)
+                    if op == 'Lt' and amax < bmin: return bv_bool(True)
+                    if op == 'Lt' and amin >= bmax: return bv_bool(False)
+                    if op == 'Le' and amax <= bmin: return bv_bool(True)
+                    if op == 'Le' and amin > bmax: return bv_bool(False)
+                    if op == 'Gt' and amin > bmax: return bv_bool(True)
+                    if op == 'Gt' and amax <= bmin: return bv_bool(False)
+                    if op == 'Ge' and amin >= bmax: return bv_bool(True)
+                    if op == 'Ge' and amax < bmin: return bv_bool(False)
                 return BV(1, bits=[TOP])
             x, y = a.sval(), b.sval()
             return bv_bool({'Lt': x < y, 'Le': x <= y, 'Gt': x > y, 'Ge': x >= y}[op])
@@ -322,6 +336,8 @@ class Interp:
 
     def cast(self, v, ty, kind):
         rty = self.resolve_ty(ty)
+        if isinstance(v, Opaque) and kind in ('IntToInt',):
+            return v        # symbolic token (e.g. decoded character) survives `as char`
         if kind == 'IntToInt':
             ii = self.int_info(ty)
             if isinstance(v, Agg) and v.kind.startswith('adt:'):
@@ -560,6 +576,8 @@ class Interp:
             if h:
                 h(self, args)
         m = self.overrides.get(name) or MODELS.get(name)
+        if m is None and target_body is None:
+            m = MODELS.get(cal.defname)      # trait-level model for a resolved library impl
         if m is not None:
             return m(self, args, t, cal)
         if target_body is not None:
